@@ -3,6 +3,7 @@ CONSTANTS Kinds = {"plain", "mixed", "enc", "root"}
           MixedServerSet = {"none", "rel"}
           MixedCoreServers = {"none"}
           MixedMethKeys = {"G", "GP"}
+          PlainMethKeys = {"G", "P", "GP"}
           MaxLen = 2
           MaxT = 2
           ServerSet = {"none", "rel", "relslash", "relroot", "abs", "absvar", "two", "psfirst", "pslast", "relpfx", "abspfx"}
@@ -11,5 +12,6 @@ CONSTANTS Kinds = {"plain", "mixed", "enc", "root"}
           CoreServers = {"none", "rel"}
           Slice = 8
           Seed = 1
+          DesignAll = TRUE
 INVARIANTS DesignOK Emit
 CHECK_DEADLOCK FALSE
